@@ -139,13 +139,14 @@ namespace bxdecay0 {
   /*****************************************************/
   void eta_nme::_set_defaults()
   {
-    chi_GTw = std::numeric_limits<double>::quiet_NaN();
-    chi_Fw  = std::numeric_limits<double>::quiet_NaN();
-    chip_GT = std::numeric_limits<double>::quiet_NaN();
-    chip_F  = std::numeric_limits<double>::quiet_NaN();
-    chip_T  = std::numeric_limits<double>::quiet_NaN();
-    chip_P  = std::numeric_limits<double>::quiet_NaN();
-    chip_R  = std::numeric_limits<double>::quiet_NaN();
+    // As in Decay0 (zero-initialised COMMON /eta_nme/): unset NMEs are 0, not NaN
+    chi_GTw = 0.0;
+    chi_Fw  = 0.0;
+    chip_GT = 0.0;
+    chip_F  = 0.0;
+    chip_T  = 0.0;
+    chip_P  = 0.0;
+    chip_R  = 0.0;
     return;
   }
 
